@@ -341,7 +341,7 @@ func genC04(t *rapid.T) *Case {
 			callees = append(callees, i)
 		}
 	}
-	mg := &mixGen{rpc: newRPCGen(nreal, c.Realms[0].Strict, "C02", callers, callees), nsess: nreal, strict: c.Realms[0].Strict, profile: "C05", alive: make([]bool, nreal), ps: &psGen{nsess: nreal, strict: c.Realms[0].Strict}}
+	mg := &mixGen{rpc: newRPCGen(nreal, c.Realms[0].Strict, "hostile", callers, callees), nsess: nreal, strict: c.Realms[0].Strict, profile: "C05", alive: make([]bool, nreal), ps: &psGen{nsess: nreal, strict: c.Realms[0].Strict}}
 	native := func(s int) bool { return c.Sess[s].Transport == "" }
 	ops := rapid.SliceOfN(rapid.Custom(func(t *rapid.T) Op {
 		switch k := uni(t, 100, "k"); {
@@ -382,6 +382,65 @@ func genC04(t *rapid.T) *Case {
 			return op
 		}
 	}), 1, 25).Draw(t, "ops")
+	// Scenario templates: multi-step setups that independent random ops rarely
+	// line up (shared registration under one - possibly unknown - policy followed
+	// by calls; subscription fan-out followed by hostile publications; a call
+	// followed by hostile cancel / yield / error).
+	var pre []Op
+	for i := 0; i < uni(t, 3, "ntemplates"); i++ {
+		switch uni(t, 3, "template") {
+		case 0:
+			u := genTopic(t)
+			pol := pick(t, []string{"foo", "roundrobin", "first", "random", "", "single", "foo"}, "tpol")
+			m := genMatch(t)
+			for j := 0; j < 2+uni(t, 2, "nreg"); j++ {
+				op := Op{K: "register", S: uni(t, nreal, "trs"), URI: u, Mode: m}
+				if pol != "" {
+					op.Opts = append(op.Opts, KV{"invoke", VStr(pol)})
+				}
+				if pct(t, 30, "thost") {
+					op.Opts = append(op.Opts, genHostileOpts(t, native(op.S), 1)...)
+				}
+				pre = append(pre, op)
+			}
+			for j := 0; j < 1+uni(t, 3, "ncall"); j++ {
+				op := Op{K: "call", S: uni(t, nreal, "tcs"), URI: u, Args: genArgs(t, valOpts{})}
+				if pct(t, 40, "thost2") {
+					op.Opts = genHostileOpts(t, native(op.S), 2)
+				}
+				pre = append(pre, op)
+			}
+		case 1:
+			u := genTopic(t)
+			for j := 0; j < 2+uni(t, 3, "nsub"); j++ {
+				pre = append(pre, Op{K: "subscribe", S: uni(t, nreal, "tss"), URI: u, Mode: pick(t, []string{"", "prefix", "wildcard"}, "tm")})
+			}
+			for j := 0; j < 1+uni(t, 3, "npub"); j++ {
+				s := uni(t, nreal, "tps")
+				pre = append(pre, Op{K: "publish", S: s, URI: u, Opts: append(genPublishOpts(t, nreal), genHostileOpts(t, native(s), 2)...), Args: genArgs(t, valOpts{}), N: 777})
+			}
+		default:
+			u := genTopic(t)
+			callee, caller := uni(t, nreal, "tce"), uni(t, nreal, "tcr")
+			pre = append(pre, Op{K: "register", S: callee, URI: u})
+			co := Op{K: "call", S: caller, URI: u, Opts: []KV{{"receive_progress", VBool(true)}}}
+			if pct(t, 50, "tto") {
+				co.Opts = append(co.Opts, KV{"timeout", genHostileValue(t, native(caller))})
+			}
+			pre = append(pre, co)
+			for j := 0; j < 1+uni(t, 3, "nans"); j++ {
+				switch uni(t, 3, "ans") {
+				case 0:
+					pre = append(pre, Op{K: "cancel", S: caller, Ref: "call:-1:0", Opts: genHostileOpts(t, native(caller), 2), N: 777})
+				case 1:
+					pre = append(pre, Op{K: "yield", S: callee, Ref: "inv:-1:0", Opts: genHostileOpts(t, native(callee), 2), Args: genArgs(t, valOpts{}), N: 777})
+				default:
+					pre = append(pre, Op{K: "error", S: callee, Ref: "inv:-1:0", Opts: genHostileOpts(t, native(callee), 2), N: 777})
+				}
+			}
+		}
+	}
+	ops = append(pre, ops...)
 	// par marking: a stretch of the ops runs concurrently
 	if pct(t, 30, "par") && len(ops) >= 2 {
 		from := uni(t, len(ops)-1, "parfrom")
